@@ -34,7 +34,8 @@ MANIFEST = {
     'technique': ('typestate of the hand-out list, dominance/ordering over the SuggestTrials CFG, '
                   'def-use from max_trial_id reads to the id/name of created trials, '
                   'post-dominance of the surplus loop, pop-guard contradiction rule'
-                  '; hand-out and surplus loops evaluated on a finite model of the slice/count arithmetic (list lengths 0..5 x missing counts -1..7), stale-count detection by reaching definitions; shared C07.R7-R9'),
+                  '; hand-out and surplus loops evaluated on a finite model of the slice/count arithmetic (list lengths 0..5 x missing counts -1..7), stale-count detection by reaching definitions; shared C07.R7-R9'
+                  '; provenance of every returned operation (pending operation of this worker or the one created in this call)'),
     'level_text': (
         'Static: the three-source fill order, the own-trial filter, ACTIVE+client_id written and '
         'stored before hand-out, per-create fresh max+1 ids, complete consumption of algorithm '
